@@ -50,7 +50,7 @@ def short(ev):
         elif k in ("keys", "rkeys", "P", "path"):
             out[k] = ["".join(str(d) for d in x) for x in v][:40]
         elif k == "strs":
-            out[k] = ["".join(x) for x in v][:40]
+            out[k] = ["".join("acgt#????!"[d] for d in x) for x in v]
         elif k == "cons":
             out[k] = "".join("acgt"[d] for d in v)
         elif k == "PW":
@@ -63,8 +63,8 @@ def short(ev):
 def describe(ev, why):
     e = short(ev)
     if ev["kind"] == "idx":
-        return ("NewKmerMap[Uint%d](k=%d, sparse=%d).NormalizedKmerSlice(%s) -> %s ; on the reverse complement -> %d keys%s"
-                % (ev["bits"], ev["k"], ev["sp"], e["s"][:120], e["strs"][:12], len(ev["rkeys"]),
+        return ("NewKmerMap[Uint%d](k=%d, sparse=%d).NormalizedKmerSlice(%s) -> %d keys %s... (%d stray high digits); on the reverse complement -> %d keys %s...%s"
+                % (ev["bits"], ev["k"], ev["sp"], e["s"][:120], len(ev["keys"]), e["keys"][:6], ev["stray"], len(ev["rkeys"]), e["rkeys"][:6],
                    (" ; PANIC " + ev["panmsg"]) if ev["pan"] else ""))
     if ev["kind"] == "four":
         return "Count4Mer(%s) -> %s%s" % (e["s"][:120], ev["tab"][:12], (" ; PANIC " + ev["panmsg"]) if ev["pan"] else "")
@@ -137,7 +137,7 @@ def main(ctx):
         ctx.expect_vacuity("class " + need, ctx.classes.get(need, 0))
     # T ---------------------------------------------------------------------------------------
     trace = ctx.path("trace.ndjson")
-    n, graphs, maxlen = (1500, 400, 500) if thorough else (240, 56, 200)
+    n, graphs, maxlen = (1500, 480, 500) if thorough else (150, 64, 200)
     ctx.harness(["record", "C19", "--out", trace, "--n", n, "--opt", "maxlen=%d" % maxlen, "--opt", "graphs=%d" % graphs],
                 timeout=900)
     events, rejects = validate_trace(ctx, trace, 1500, None)
